@@ -166,6 +166,46 @@ CHECKS["C01"] = {
                     "proto.Marshal/Unmarshal: opaque handle carrying the message (DESIGN 4.2); badger as a key-value map; zap/prometheus/reporter no-ops",
                     "the processor is one goroutine: a history is a sequence of handler calls; the own-observation loopback goroutine is delivered at a harness-chosen point"],
 }
+_c02_q = (["n=1;m.plen=1"] + ["n=2;m.plen=1;own=%d;noise=%s" % (o, z) for o in (0, 1) for z in ("0,1,2,3", "5,6,7")] +
+          ["n=2;m.plen=1;own=2;noise=%s;loopback=%d" % (z, l) for z in ("0", "1,2,3", "5,6,7") for l in (0, 1, 2)] +
+          ["n=3;m.plen=1;own=%d;noise=0;loopback=%d;when#0=%s" % (o, l, w) for o in (0, 1) for l in (0, 1, 2) for w in ("0,1", "2,3")] +
+          ["n=3;m.plen=1;own=0;noise=%d;loopback=%d" % (z, l) for z in (2, 6) for l in (0, 1)])
+_c02_t = (["n=1", "n=2;own=0", "n=2;own=1", "n=2;own=2"] +
+          ["n=3;m.plen=1;own=%d;noise=%s;loopback=%d" % (o, z, l) for o in (0, 1, 2, 3) for z in ("0", "1,2,3", "4", "5,6,7", "8") for l in (0, 1, 2)] +
+          ["n=4;m.plen=1;own=%d;noise=0;loopback=%d;when#0=%d" % (o, l, w) for o in (0, 4) for l in (0, 1, 2) for w in (0, 1, 2, 3)])
+CHECKS["C02"] = {
+    "runs": [
+        {"pkg": "./pkg/processor", "entry": "VerifC02_ExactlyWhen", "reach": ["published", "never-published"], "opts": _PROC_OPTS,
+         "shards": {"quick": _c02_q, "thorough": _c02_t}, "timeout": {"quick": 2400, "thorough": 30000}},
+        {"pkg": "./pkg/processor", "entry": "VerifC01_SetChange", "reach": ["published", "not-published"], "opts": _PROC_OPTS,
+         "shards": {"quick": _c01_sc_q, "thorough": _c01_sc_t}, "timeout": {"quick": 2400, "thorough": 30000}},
+        {"pkg": "./pkg/processor", "entry": "VerifC02_GovernanceEmitter", "reach": ["governance", "ordinary"], "opts": _PROC_OPTS},
+    ],
+    "bounds": {"quick": {"histories": "one message M (fully symbolic, 1-byte payload); guardian set n = 1..3, own key at position 0 or 1 (n <= 2: also not a member); every assignment of each other member to {never, before the local observation, after it, both}; own loopback first / last / never; at most one invalid observation (outsider key; member over a decoy digest; outsider signature under a member address) before or after the local observation (thorough adds 117 arbitrary bytes with another digest); a second local observation and second loopback at the end",
+                         "set change": "the C01 set-change scenarios (|A|,|B| <= 2) with the ghost count of distinct relevant members delivered", "governance emitter": "message fully symbolic, n = 3"},
+               "thorough": {"histories": "n = 1..4 (n = 4: no invalid traffic), own at every position, payload 0..2 bytes for n <= 2"}},
+    "outside": "orders of deliveries of different members inside one phase (they are delivered in key order; the handler is order-insensitive by C01's per-step invariant but this is not asserted here); more than one invalid observation per history; more than one aggregation lifetime (expiry then revival is C14's subject); n > 4",
+    "assumptions": CHECKS["C01"]["assumptions"],
+}
+_CLOCK = "pkg/processor/cleanup.go,pkg/processor/broadcast.go,pkg/processor/observation.go"
+_PROC_CLOCK_OPTS = dict(_PROC_OPTS, clockfiles=_CLOCK)
+_c13_q = (["K=1"] + ["K=2;ev#0=%d" % a for a in range(9)] + ["K=3;m.plen=0,1;ev#0=%d;ev#1=%d" % (a, b) for a in range(9) for b in range(9)] +
+          ["K=4;m.plen=0;setsize=1;ev#0=0;ev#1=1;ev#2=2;inj.plen=0", "K=4;m.plen=0,1;setsize=1,2;ev#0=0;ev#1=7;ev#2=2,4;inj.plen=0", "K=4;m.plen=1;setsize=2;ev#0=0;ev#1=1;ev#2=4,2", "K=4;m.plen=1;ev#0=0;ev#1=1;ev#2=0;ev#3=2,3,4,8", "K=4;m.plen=1;ev#0=0;ev#1=4;ev#2=0;ev#3=1,2,4,8"])
+_c13_t = (["K=1", "K=2"] + ["K=3;ev#0=%d;ev#1=%d" % (a, b) for a in range(9) for b in range(9)] +
+          ["K=4;m.plen=0,1;inj.plen=0;setsize=1,2;ev#0=0;ev#1=%d;ev#2=%d" % (a, b) for a in range(9) for b in range(9)] +
+          ["K=4;m.plen=0,1;inj.plen=0;ev#0=7;ev#1=%d;ev#2=%d" % (a, b) for a in range(9) for b in range(9)])
+CHECKS["C13"] = {
+    "runs": [
+        {"pkg": "./pkg/processor", "entry": "VerifC13_Histories", "reach": ["end"], "opts": _PROC_CLOCK_OPTS,
+         "shards": {"quick": _c13_q, "thorough": _c13_t}, "timeout": {"quick": 2400, "thorough": 30000}},
+        {"pkg": "./pkg/processor", "entry": "VerifC13_ObserveTwice", "reach": ["looped-back", "observed-again", "dropped-governance"], "opts": _PROC_CLOCK_OPTS},
+    ],
+    "bounds": {"quick": {"histories": "every sequence of K <= 3 events from the uninitialised processor over the 9-letter alphabet {set update (0..2 keys), chain message M (payload 0..1 bytes, all fields symbolic), delivery of the own loopback, adversarial observation (address/digest/signature each nil, empty, short, exact, long; contents symbolic), honest observation by member 1, inbound VAA of arbitrary bytes (9 lengths incl. nil), inbound well-formed VAA, injected VAA (payload 0..1), cleanup tick after an arbitrary clock advance}; for K = 3 the malformed-length combinations are reduced to four forms; plus selected K = 4 prefixes (set update, message, loopback, *; set update, injection, *, *; set update, message|observation, set update, *)",
+                         "unwind": 3000},
+               "thorough": {"histories": "all K <= 3; all K = 4 histories that start with a set update or an injection"}},
+    "outside": "histories longer than the bound; more than one distinct chain message; guardian sets larger than 2; panics inside libp2p/badger/zap themselves; the notifier (nil in the harness, as in production without a Discord token)",
+    "assumptions": CHECKS["C01"]["assumptions"] + ["clock: time.Now()/time.Since( in cleanup.go, broadcast.go, observation.go redirected mechanically to the harness clock (arbitrary non-decreasing instants); Duration.Minutes()/Hours() comparisons replaced by integer comparisons only after the equivalence was proved on the SSA-executed stdlib code"],
+}
 
 # generated harness parts per (module, package): regenerated from /repo on every run for every check that loads the package
 GENERATORS = {("node", "./pkg/vaa"): [_gen_c04], ("node", "./pkg/processor"): [_gen_c07]}
